@@ -474,12 +474,8 @@ pub fn class_composite_rep_truncate(pages: &[Stack]) -> bool {
 }
 
 pub fn known_class(pages: &[Stack]) -> Option<&'static str> {
-    if pages.iter().any(class_len_bookkeeping) {
-        return Some("list_of_nullable_struct_repdef");
-    }
-    if pages.iter().any(class_allvalid_list) {
-        return Some("allvalid_list_over_nullable_items");
-    }
+    // (repaired in /repo d90c193, acc257d: list_of_nullable_struct_repdef, allvalid_list_over_nullable_items;
+    //  their inputs stay in the generators and the corpus as regression cases)
     if pages.iter().any(class_allvalid_list_inside) {
         return Some("allvalid_list_inside_nullable_struct");
     }
